@@ -447,6 +447,20 @@ def lemma_XI():
     return {"name": "lemmas XI.* (z3 Optimize enumeration)", "status": worst, "parts": [{"part": r["name"], "status": r["status"]} for r in out], "seconds": round(sum(r["seconds"] for r in out), 3)}
 
 
+def lemma_KeySoftN_mono():
+    from contracts import c_rc2backends as RC
+
+    s1, s2 = z3.Consts("s1_ks s2_ks", RC.CSoft)
+    cl = z3.Const("cl_ks", RC.LClause.sort)
+    n = z3.Int("n_ks")
+    W = z3.Function("KeySoftN!w", RC.CSoft, RC.LClause.sort, L.Int, L.Int)
+    return _prove(
+        "KeySoftN.mono",
+        [("", [RC.KeySoftN(s1, cl, n), z3.IsSubset(s1, s2)], RC.KeySoftN(s2, cl, n), [RC.LClause.at(cl, W(s2, cl, n))])],
+        exclude=["KeySoftN.mono"],
+    )
+
+
 def lemma_mem_at():
     mem, memw = L.mem_theory(L.Int)
     l = z3.Const("l_mat", LInt.sort)
@@ -462,6 +476,7 @@ LEMMAS = {
     "SumIV.concat": lemma_SumIV_concat,
     "mem.at.Int": lemma_mem_at,
     "CoveredUpTo.snoc": lemma_CoveredUpTo_snoc,
+    "KeySoftN.mono": lemma_KeySoftN_mono,
     "MCS.bridge": lemma_MCS_bridge,
     "MCS.bridge2": lemma_MCS_bridge2,
     "XI": lemma_XI,
